@@ -1617,6 +1617,22 @@ def rt_c11(tier="quick", first_only=False, count=None):
             s0 = np.asarray(unwrap(tr0).scale, float)
             if not np.allclose(s0, 1.0, rtol=1e-6):
                 add(f"default flow transformer (_affine_with_min_scale({ms})) starts with scale {s0.tolist()}, not the 1 given to its reparameterisation", what="min_scale")
+    # non-default min_derivative given to the constructor: identity at construction, and the floor is the constructor's value for
+    # every raw value (seed V3: a parameterisation that falls back to the default floor of 1e-3)
+    from flowjax.bijections import RationalQuadraticSpline as _RQS
+    for md in (1e-3, 1e-2, 0.2):
+        for iv in (3.0, (-1.0, 2.0)):
+            sp0 = _RQS(knots=4, interval=iv, min_derivative=md)
+            n += 1
+            d0 = np.asarray(unwrap(sp0).derivatives, float)
+            if not np.allclose(d0, 1.0, rtol=1e-9, atol=1e-9):
+                add(f"RationalQuadraticSpline(knots=4, interval={iv}, min_derivative={md}) starts with knot derivatives {d0.tolist()}, not 1 (not the identity at construction)", what="min_derivative", md=md)
+            for r in (-50.0, -8.0, -5.0, 0.0, 7.0):
+                n += 1
+                moved = eqx.tree_at(lambda b: b.derivatives.args[0], sp0, jnp.full(jnp.shape(sp0.derivatives.args[0]), r, jnp.result_type(sp0.derivatives.args[0])))
+                dd_ = np.asarray(unwrap(moved).derivatives, float)
+                if not np.all(dd_ >= md):
+                    add(f"RationalQuadraticSpline(min_derivative={md}) with raw derivative parameters {r}: knot derivatives {dd_.min()!r} below the floor given to the constructor", what="min_derivative", md=md, raw=r)
     for seed in range(6 if tier == "quick" else 30):
         n += 1
         scale = [1.0, 10.0, 50.0][seed % 3]
